@@ -283,7 +283,7 @@ def subchecks(tier):
             prop,
             quick=600,
             thorough=30000,
-            floors={"two_axes_permuted": 0.3, "binding_constraint": 0.1, "shifted": 0.3, "sched_greedy": 0.12, "sched_rr": 0.092, "two_sessions_past_their_estimate": 0.1, "playback_scheduler": 0.01},
+            floors={"two_axes_permuted": 0.3, "binding_constraint": 0.1, "shifted": 0.3, "sched_greedy": 0.089, "sched_rr": 0.092, "two_sessions_past_their_estimate": 0.1, "playback_scheduler": 0.005},
         )
     ]
 
